@@ -13,11 +13,26 @@ def register(add):
     AS = ['src/bc/rijndael-alg-fst.h', 'src/bc/rijndael-api-fst.h', 'src/bc/rijndael-api-fst.c']   # the headers are listed so that they sit next to the woven copy of the .c that includes them
     AH = ['c14x_aes.h', 'c14x_aes_state.h']
     AN = 'AES block function abstract (rijndaelEncrypt/rijndaelDecrypt replaced): records key schedule, round count, buffers and the 16 input bytes of each call, returns ghost blocks'
-    add('padEncrypt', ['C14', 'C08'], 'padEncrypt', sources=AS, headers=AH, conf='base', route='bounded', unwind=18, timeout=600,
-        decls='cipherInstance *ci; keyInstance *ki; BYTE *in, *out; int n;', call='padEncrypt(ci, ki, in, n, out)',
-        replace=['rijndaelEncrypt/rijndaelEncrypt_a'], flags=['--object-bits', '9', '--sat-solver', 'cadical'], unwindset=['padEncrypt_wrapped_for_contract_checking.1:4'],
-        bound_note='CBC mode; every int length <= 40 bytes (0, 1, 2 complete blocks and every remainder; <= 0: nothing to do); output buffer of exactly the ciphertext length; loops unwound completely', note=AN)
+    # one unit per number of complete blocks (one unit over the whole range needs 190-370 s; the parts run in parallel)
+    for tag, lo, hi, what in (('b0', None, 15, 'every int length <= 15 (<= 0: nothing to do; 1-15: one padded block)'),
+                              ('b1', 16, 31, 'lengths 16-31 (one complete block + the padded one, a full block of padding at 16)'),
+                              ('b2', 32, 47, 'lengths 32-47 (two complete blocks + the padded one, a full block of padding at 32)'),
+                              ('b3', 48, 50, 'lengths 48-50 (three complete blocks + the padded one)')):
+        add('padEncrypt.' + tag, ['C14', 'C08'], 'padEncrypt', sources=AS, headers=AH, conf='base', route='bounded', unwind=18, timeout=600,
+            decls='cipherInstance *ci; keyInstance *ki; BYTE *in, *out; int n;', call='padEncrypt(ci, ki, in, n, out)',
+            replace=['rijndaelEncrypt/rijndaelEncrypt_a'], flags=['--object-bits', '9'], unwindset=['padEncrypt_wrapped_for_contract_checking.1:4'],
+            defines=['VC_AES_MAXIN=%d' % hi, 'VC_AES_OUTSZ=%d' % (16 * (hi // 16 + 1))] + (['VC_AES_MININ=%d' % lo] if lo is not None else []),
+            bound_note='CBC mode; ' + what + '; output buffer of exactly the ciphertext length; loops unwound completely', note=AN)
     add('padDecrypt', ['C14', 'C08'], 'padDecrypt', sources=AS, headers=AH, conf='base', route='bounded', unwind=18, timeout=600,
         decls='cipherInstance *ci; keyInstance *ki; BYTE *in, *out; int n;', call='padDecrypt(ci, ki, in, n, out)',
         replace=['rijndaelDecrypt/rijndaelDecrypt_a'], flags=['--object-bits', '9', '--sat-solver', 'cadical'], unwindset=['padDecrypt_wrapped_for_contract_checking.2:4'],
         bound_note='CBC mode; every int length <= 50 bytes (1-3 blocks and every length in between, which is rejected); plaintext buffer of exactly len - 1 bytes; loops unwound completely', note=AN)
+
+    BS = ['src/bc/rijndael-alg-fst.h', 'src/bc/rijndael-api-fst.h', 'src/bc/relic_bc_aes.c']
+    BN = ('makeKey2, cipherInit and padEncrypt/padDecrypt abstract (views recording their arguments, returning nondeterministic verdicts); the views of padEncrypt/padDecrypt '
+          'require the output room of the proved contracts (units padEncrypt, padDecrypt)')
+    for f, cal in (('bc_aes_cbc_enc', 'padEncrypt/padEncrypt_v'), ('bc_aes_cbc_dec', 'padDecrypt/padDecrypt_v')):
+        add(f, ['C14', 'C08'], f, sources=BS, headers=['c14x_bc.h', 'c14x_bc_state.h'], conf='base', route='proof', unwind=30, timeout=600,
+            decls='uint8_t *out; size_t *out_len; const uint8_t *in, *key, *iv; size_t in_len, key_len;', call='%s(out, out_len, in, in_len, key, key_len, iv)' % f,
+            replace=['makeKey2/makeKey2_v', 'cipherInit/cipherInit_v', cal], flags=['--object-bits', '9'],
+            bound_note='loop-free (callees abstract); lengths: input <= 100 bytes, capacity <= 200 bytes, key <= 64 bytes', note=BN)
